@@ -26,11 +26,68 @@ def loader_part(chk, res, rows):
         chk.notes.append("NOTE loader rejected %d stored histories (plan validation; C12's subject)" % len(errs))
 
 
+def sqlgen_part(chk):
+    """SQL generation is a function of the files: the three backend harnesses (real build_plan_queries on generated and corpus
+    histories, output = every emitted statement) are run three times, in fresh processes (different hash seeds, different
+    allocation), on the same PRNG seed; the two outputs must be byte-identical."""
+    import json, os, shutil
+    import vflib
+    base = os.path.join(vflib.CACHE, "c08_sqlgen_%s_%s" % (chk.tier, chk.seed))
+    big = chk.tier == "thorough"
+    specs = [("sqlite", "hsqlite", "harness_sqlite", ["--histories", "600" if big else "160", "--steps", "4", "--pending", "100" if big else "40"]),
+             ("pg", "hpg", "harness_pg", ["--histories", "600" if big else "160", "--steps", "4"]),
+             ("mysql", "hmysql", "harness_mysql", ["--evolutions", "300" if big else "80", "--steps", "3", "--hand", "100" if big else "40", "--modseq", "100" if big else "40", "--exhaustive", "0"])]
+    stats = {}
+    with vflib.locked("c08_sqlgen_%s_%s" % (chk.tier, chk.seed)):
+        shutil.rmtree(base, ignore_errors=True)
+        for name, pkg, ws, args in specs:
+            rc, out, binp = vflib.build_harness(pkg, ws=ws)
+            if rc != 0:
+                chk.violation(vflib.write_replay("C08", "correspondence:sqlgen-build", {"harness": pkg, "log": out[-1500:]}), True)
+                continue
+            runs = []
+            # the backend's own corpus plus the histories written for this oracle (many constraints of every kind on one table)
+            cdir = os.path.join(base, name + "_corpus")
+            os.makedirs(cdir)
+            for src in (os.path.join(vflib.ROOT, "corpus", name), os.path.join(vflib.ROOT, "corpus", "sqlgen")):
+                for f in sorted(os.listdir(src)):
+                    if f.endswith(".json"):
+                        shutil.copy(os.path.join(src, f), os.path.join(cdir, f))
+            for k in ("a", "b", "c"):
+                d = os.path.join(base, name + "_" + k)
+                os.makedirs(d)
+                rc, out, _ = vflib.sh([binp, "gen", "--seed", str(chk.seed)] + args + ["--out", d, "--corpus", cdir], timeout=1200)
+                if rc != 0:
+                    chk.violation(vflib.write_replay("C08", "correspondence:sqlgen-run", {"harness": pkg, "log": out[-1500:]}), True)
+                    break
+                runs.append(open(os.path.join(d, "cases.jsonl"), encoding="utf-8", errors="replace").read().split("\n"))
+            if len(runs) < 3:
+                continue
+            a, b = runs[0], (runs[1] if runs[1] != runs[0] else runs[2])
+            stats[name] = {"rows": len(a) - 1, "identical": a == b}
+            chk.cov["evaluations"] += 3 * (len(a) - 1)
+            if a != b:
+                i = next((i for i, (x, y) in enumerate(zip(a, b)) if x != y), min(len(a), len(b)))
+                ra, rb = (json.loads(a[i]) if i < len(a) and a[i] else None), (json.loads(b[i]) if i < len(b) and b[i] else None)
+                chk.violation(vflib.write_replay("C08", "oracle:sqlgen-repeatable", {
+                    "input": {"backend": name, "case": {k: v for k, v in (ra or {}).items() if k not in ("sqlite", "postgres", "mysql", "sql", "stmts")}},
+                    "first_run": ra, "second_run": rb,
+                    "note": "the same histories rendered by build_plan_queries in two fresh processes gave different statements"}))
+        shutil.rmtree(base, ignore_errors=True)
+    chk.cov["correspondences"]["O-sqlgen(build_plan_queries twice, fresh processes, 3 backends)"] = {"cases": sum(v["rows"] for v in stats.values()), "mismatches": sum(0 if v["identical"] else 1 for v in stats.values())}
+    chk.cov["distribution"]["sqlgen_rows"] = {k: v["rows"] for k, v in stats.items()}
+
+
+def extra_parts(chk, res, rows):
+    loader_part(chk, res, rows)
+    sqlgen_part(chk)
+
+
 def run(tier, seed):
-    return m1run.m1_check("C08", tier, seed, subchecks=[3, 4], oracle_key="c08", known_ids=[], rule=RULE, extra=loader_part,
+    return m1run.m1_check("C08", tier, seed, subchecks=[3, 4], oracle_key="c08", known_ids=[], rule=RULE, extra=extra_parts,
                           assumptions=["tie: K-apply(replay) and K-diff(plan_next) evaluated inside Coq on every case",
                                        "proved: sort_plans (the loader's sort_by_key) is independent of listing order for distinct versions; diff_actions is invariant under permutation of both table lists (distinct names)",
-                                       "SQL-generation determinism (build_plan_queries) is covered through the SQL layer's correspondence (C02-C04 checks); process-level hash-seed variation is exercised by the exporter checks (C18)"])
+                                       "SQL-generation determinism (build_plan_queries): the three backend harnesses run the real generator twice in fresh processes on the same histories and the outputs are compared byte for byte (a test, not a proof: the proofs are about the planner and the loader's sort); statement-level equality with the Coq SQL models is the business of C02-C04"])
 
 
 def replay(path):
